@@ -458,6 +458,82 @@ fn lin_strategy(t: usize, lo: i64, hi: i64, unit: i64, name: &str) -> impl Strat
   })
 }
 
+const CTOR_TYPES: [&str; 13] = ["SolarYear", "SolarHalfYear", "SolarSeason", "SolarMonth", "SolarWeek", "SolarDay", "SolarTime", "LunarYear", "LunarMonth", "LunarWeek", "LunarDay", "LunarHour", "SixtyCycleYear"];
+
+impl C11 {
+  /// a = [type, a1..a6]: the Result-returning constructor and its panicking sibling accept exactly the same arguments and
+  /// build the same value; where validity is a plain range rule (years, indices, clock fields, existing civil dates,
+  /// months of the label model, day <= month length) acceptance is also compared with that rule
+  fn eval_ctor(&self, env: &Env, out: &mut Out, case: &Case) {
+    use tyme4rs::tyme::lunar::{LunarDay, LunarHour, LunarWeek};
+    use tyme4rs::tyme::solar::{SolarDay, SolarWeek};
+    let t = case.a[0].rem_euclid(CTOR_TYPES.len() as i64) as usize;
+    let g = |i: usize| case.a.get(i).cloned().unwrap_or(0);
+    let (y, a2, a3, a4, a5, a6) = (g(1), g(2), g(3), g(4), g(5), g(6));
+    if a3 < 0 || a4 < 0 || a5 < 0 || a6 < 0 || (a2 < 0 && !matches!(t, 8 | 9 | 10 | 11)) {
+      return;
+    }
+    out.eval("ctor");
+    let (yy, u2, u3, u4, u5, u6) = (y as isize, a2 as usize, a3 as usize, a4 as usize, a5 as usize, a6 as usize);
+    let fl = |r: Result<Result<String, String>, String>| -> Option<String> { r.ok().and_then(|x| x.ok()) };
+    let ok = |r: Result<String, String>| -> Option<String> { r.ok() };
+    let civil = |y: i64, m: i64, d: i64| date_exists(y, m, d);
+    let l = lunlist();
+    let lunar_month_ok = |y: i64, m: i64| (0..=9999).contains(&y) && l.pos(y, m).is_some();
+    let (a, b, rule): (Option<String>, Option<String>, Option<bool>) = match t {
+      0 => (fl(guard(|| SolarYear::new(yy).map(|x| x.to_string()))), ok(guard(|| SolarYear::from_year(yy).to_string())), Some((1..=9999).contains(&y))),
+      1 => (fl(guard(|| SolarHalfYear::new(yy, u2).map(|x| x.to_string()))), ok(guard(|| SolarHalfYear::from_index(yy, u2).to_string())), Some((1..=9999).contains(&y) && a2 < 2)),
+      2 => (fl(guard(|| SolarSeason::new(yy, u2).map(|x| x.to_string()))), ok(guard(|| SolarSeason::from_index(yy, u2).to_string())), Some((1..=9999).contains(&y) && a2 < 4)),
+      3 => (fl(guard(|| SolarMonth::new(yy, u2).map(|x| x.to_string()))), ok(guard(|| SolarMonth::from_ym(yy, u2).to_string())), Some((1..=9999).contains(&y) && (1..=12).contains(&a2))),
+      4 => (fl(guard(|| SolarWeek::new(yy, u2, u3, u4).map(|x| format!("{} {}", x, x.get_first_day())))), ok(guard(|| { let x = SolarWeek::from_ym(yy, u2, u3, u4); format!("{} {}", x, x.get_first_day()) })), if (1..=9999).contains(&y) && (1..=12).contains(&a2) {
+        // weeks of a civil month: ceil((offset of the 1st from the start weekday + days) / 7), from the model calendar
+        let c = cal();
+        let first = c.index(y, a2, 1).unwrap();
+        let off = (weekday(c.jdn(first)) - a4).rem_euclid(7);
+        Some(a4 < 7 && a3 < (off + c.month_len(y, a2) + 6) / 7)
+      } else {
+        Some(false)
+      }),
+      5 => (fl(guard(|| SolarDay::new(yy, u2, u3).map(|x| x.to_string()))), ok(guard(|| SolarDay::from_ymd(yy, u2, u3).to_string())), Some(civil(y, a2, a3))),
+      6 => (fl(guard(|| SolarTime::new(yy, u2, u3, u4, u5, u6).map(|x| x.to_string()))), ok(guard(|| SolarTime::from_ymd_hms(yy, u2, u3, u4, u5, u6).to_string())), Some(civil(y, a2, a3) && a4 < 24 && a5 < 60 && a6 < 60)),
+      7 => (fl(guard(|| LunarYear::new(yy).map(|x| x.to_string()))), ok(guard(|| LunarYear::from_year(yy).to_string())), Some((-1..=9999).contains(&y))),
+      8 => (fl(guard(|| LunarMonth::new(yy, a2 as isize).map(|x| x.to_string()))), ok(guard(|| LunarMonth::from_ym(yy, a2 as isize).to_string())), if (0..=9999).contains(&y) { Some(lunar_month_ok(y, a2)) } else { None }),
+      9 => (fl(guard(|| LunarWeek::new(yy, a2 as isize, u3, u4).map(|x| format!("{} {}", x, x.get_first_day())))), ok(guard(|| { let x = LunarWeek::from_ym(yy, a2 as isize, u3, u4); format!("{} {}", x, x.get_first_day()) })), if lunar_month_ok(y, a2) && y >= 1 && y <= 9998 {
+        // weeks of a lunar month: the same count from the month's own first day and length
+        let mo = LunarMonth::from_ym(yy, a2 as isize);
+        let off = (weekday(lm_first_jdn(&mo)) - a4).rem_euclid(7);
+        Some(a4 < 7 && a3 < (off + mo.get_day_count() as i64 + 6) / 7)
+      } else if (0..=9999).contains(&y) && !lunar_month_ok(y, a2) {
+        Some(false)
+      } else {
+        None
+      }),
+      10 => (fl(guard(|| LunarDay::new(yy, a2 as isize, u3).map(|x| x.to_string()))), ok(guard(|| LunarDay::from_ymd(yy, a2 as isize, u3).to_string())), if lunar_month_ok(y, a2) { Some(a3 >= 1 && a3 <= LunarMonth::from_ym(yy, a2 as isize).get_day_count() as i64) } else if (0..=9999).contains(&y) { Some(false) } else { None }),
+      11 => (fl(guard(|| LunarHour::new(yy, a2 as isize, u3, u4, u5, u6).map(|x| x.to_string()))), ok(guard(|| LunarHour::from_ymd_hms(yy, a2 as isize, u3, u4, u5, u6).to_string())), if lunar_month_ok(y, a2) { Some(a3 >= 1 && a3 <= LunarMonth::from_ym(yy, a2 as isize).get_day_count() as i64 && a4 < 24 && a5 < 60 && a6 < 60) } else if (0..=9999).contains(&y) { Some(false) } else { None }),
+      _ => (fl(guard(|| SixtyCycleYear::new(yy).map(|x| x.to_string()))), ok(guard(|| SixtyCycleYear::from_year(yy).to_string())), Some((-1..=9999).contains(&y))),
+    };
+    let k = [("type", t as i64), ("y", y), ("a2", a2), ("a3", a3)];
+    let desc = format!("{}({:?})", CTOR_TYPES[t], &case.a[1..]);
+    let invalid = a.is_none() || b.is_none() || rule == Some(false);
+    if invalid {
+      out.nontrivial("ctor", &case.a);
+      out.class("constructor_arguments_that_must_be_refused");
+    }
+    if out.wants_sample("ctor", invalid) {
+      out.sample("ctor", invalid, || json!({"constructor": desc, "new": a, "from": b, "valid_by_rule": rule}));
+    }
+    if a != b {
+      out.fail(env, viol("ctor", "constructors_disagree", case, &k, desc.clone(), format!("::new -> {:?}", a), format!("panicking sibling -> {:?}", b)));
+      return;
+    }
+    if let Some(v) = rule {
+      if v != a.is_some() {
+        out.fail(env, viol("ctor", if v { "valid_arguments_refused" } else { "invalid_arguments_accepted" }, case, &k, desc, if v { "accepted".into() } else { "refused".into() }, format!("{:?}", a)));
+      }
+    }
+  }
+}
+
 impl Prop for C11 {
   fn id(&self) -> &'static str {
     "C11"
@@ -536,6 +612,19 @@ impl Prop for C11 {
         out.set_exhaustive("wrap", true);
       }
       "linear" => {
+        // constructors: boundary-heavy argument tuples for the 13 constructible units
+        {
+          let yr = prop_oneof![3 => 1i64..=9999, 2 => prop_oneof![Just(-2i64), Just(-1), Just(0), Just(1), Just(2), Just(1582), Just(9998), Just(9999), Just(10000), Just(10001)], 1 => -50i64..=10050];
+          let small = |hi: i64| prop_oneof![3 => 0i64..=hi, 1 => Just(hi + 1), 1 => Just(hi + 2), 1 => Just(0i64)];
+          let strat = (0i64..13, yr, prop_oneof![4 => -13i64..=14, 1 => Just(10i64)], small(31), small(23), small(59), small(59)).prop_map(|(t, y, a2, a3, a4, a5, a6)| {
+            // weeks: a3 = index 0..7, a4 = start 0..8
+            let (a3, a4) = if t == 4 || t == 9 { (a3 % 8, a4 % 9) } else { (a3, a4) };
+            let (y, a2) = if (t == 5 || t == 6) && y == 1582 { (y, 10) } else { (y, a2) };
+            Case::ints(&[t, y, a2, a3, a4, a5, a6])
+          });
+          prop_run(env, out, "ctor", env.tier.pick(48_000, 1_600_000) / nshards as u32, 900 + shard as u64, strat, &ev);
+          out.set_exhaustive("ctor", false);
+        }
         let reg = linear_registry();
         for (ti, li) in reg.iter().enumerate() {
           if ti % nshards != shard {
@@ -563,6 +652,7 @@ impl Prop for C11 {
       "wrap" => self.eval_wrap(env, out, case),
       "name" => self.eval_name(env, out, case),
       "lin" => self.eval_lin(env, out, case),
+      "ctor" => self.eval_ctor(env, out, case),
       _ => panic!("unknown sub-check {}", sub),
     }
   }
